@@ -21,7 +21,7 @@ fn q4(f: f64, exact: &mut bool) -> Value {
         json!(x as i64)
     } else {
         *exact = false;
-        json!(null)
+        json!({"inexact": format!("{f:e}")})
     }
 }
 
@@ -185,6 +185,14 @@ fn run(problem: Result<Arc<CoreProblem>, Vec<String>>, gens: usize) -> Value {
     };
     let mut exact = true;
     let tr = trace(&solution, &mut exact);
+    // a schedule at f64::MAX (seen with open shifts without start.latest under a duration limit, not reproducible
+    // across processes) is a solver matter, not a document one: `format_time` cannot render it. Not part of C11.
+    let out_of_range = solution.routes.iter().any(|r| {
+        r.tour.all_activities().any(|a| !(a.schedule.arrival.abs() < 1e15 && a.schedule.departure.abs() < 1e15))
+    });
+    if out_of_range {
+        return json!({"schedule_out_of_range": true, "trace_of_schedule": tr});
+    }
     if std::env::var("C11_DEBUG").is_ok() {
         eprintln!("TRACE {}", serde_json::to_string(&tr).unwrap());
     }
